@@ -293,6 +293,15 @@ InnerCuts(im) ==
                       PartBase(p) + FileAt(im.parts[p], vf).chain[Len(FileAt(im.parts[p], vf).chain)] * S + (S \div 2) + 1}
                      : vf \in VF(im.parts[p])}
          : p \in 1..Len(im.parts)}
+\* every byte position inside one record of each kind of table, so that a cut falls inside every field of it and on
+\* every field boundary: the partition head's size word and first volume entries (16 bytes each), the first SAT words,
+\* the first two entries of every file table (24 bytes each) and the whole header of every volume's first file
+FieldCuts(im) ==
+  UNION {{PartBase(p) + k : k \in 0..50} \cup {PartBase(p) + 2 + 100 * 16 + k : k \in 0..8}
+         \cup UNION {{PartBase(p) + im.parts[p].vols[v].dir[1] * S + k : k \in 0..48} : v \in 1..Len(im.parts[p].vols)}
+         \cup UNION {{PartBase(p) + im.parts[p].vols[v].files[1].chain[1] * S + k : k \in 0..H}
+                     : v \in {w \in 1..Len(im.parts[p].vols) : im.parts[p].vols[w].files # <<>>}}
+         : p \in 1..Len(im.parts)}
 NeedsWithinImage == done => \A n \in Needs(img) : n.need <= Len(img.parts) * NSect * S
 
 Emit ==
@@ -301,5 +310,5 @@ Emit ==
                               parts |-> [p \in 1..Len(img.parts) |->
                                            [vols |-> img.parts[p].vols, sys |-> img.parts[p].sys, volgap |-> img.parts[p].volgap,
                                             sat |-> {pr \in SatPairs(img.parts[p]) : pr[2] # 0}]],
-                              expected |-> Expected(img), needs |-> Needs(img), cuts |-> Cuts(img) \cup InnerCuts(img), inner_cuts |-> InnerCuts(img)])>>)
+                              expected |-> Expected(img), needs |-> Needs(img), cuts |-> Cuts(img) \cup InnerCuts(img), inner_cuts |-> InnerCuts(img), field_cuts |-> FieldCuts(img)])>>)
 =============================================================================
